@@ -135,6 +135,13 @@ PERSIST = [
     ("function-defined-in-script-called-later", "function late() {\n    vmk L 0 $0\n}\nvmk E 0\nlate\n", {}, [("E", []), ("L", ["late"])]),
     ("missing-args-expand-to-nothing", "vmk M 0 x$5y ${9}\n", {}, [("M", ["xy"])]),
     ("source-chain-depth-3", "source a.sh\nvmk R 0 $?\n", {"a.sh": "source b.sh\n", "b.sh": "source c.sh\n", "c.sh": "vmk CC 3\n"}, [("CC", []), ("R", ["3"])]),
+    # the last command EXECUTED decides: the failing test that merely skips an `if` / ends a `while` is not a command of the body
+    ("function-ends-in-untaken-if", "function fu() {\n    vmk U1 0\n    if vmk UC 3\n        vmk U2 0\n    fi\n}\nfu\nvmk ST 0 $?\n", {}, [("U1", []), ("UC", []), ("ST", ["0"])]),
+    ("function-ends-in-finished-while", "function fw() {\n    vmk W1 0\n    while vmk WC 3\n        vmk W2 0\n    done\n}\nfw\nvmk ST 0 $?\n", {}, [("W1", []), ("WC", []), ("ST", ["0"])]),
+    ("set-e-after-function-ending-in-untaken-if", "set -e\nfunction fu() {\n    vmk U1 0\n    if vmk UC 3\n        vmk U2 0\n    fi\n}\nfu\nvmk AFTER 0\n", {}, [("U1", []), ("UC", []), ("AFTER", [])]),
+    ("function-ending-in-untaken-if-and-list", "function fu() {\n    vmk U1 0\n    if vmk UC 3\n        vmk U2 0\n    fi\n}\nfu && vmk AND 0\nfu || vmk OR 0\n", {}, [("U1", []), ("UC", []), ("AND", []), ("U1", []), ("UC", [])]),
+    ("function-ending-in-finished-while-after-failure", "function fw() {\n    vmk W1 0\n    while vmk WC 3\n        vmk W2 0\n    done\n}\nvmk PRE 3\nfw\nvmk ST 0 $?\n", {}, [("PRE", []), ("W1", []), ("WC", []), ("ST", ["0"])]),
+    ("source-ends-in-untaken-if", "source lib.sh\nvmk ST 0 $?\n", {"lib.sh": "vmk L1 0\nif vmk LC 3\n    vmk L2 0\nfi\n"}, [("L1", []), ("LC", []), ("ST", ["0"])]),
 ]
 
 
